@@ -105,15 +105,31 @@ def run(run):
     fx = [f for f in fx if any(k in f for k in keep)]
     cases = session.load_files([session.FileCase(p) for p in fx] + crafted_files(run, run.tier) + crafted_2d(run, run.tier), run)
     calls = []
+    NONE = readcalls.NONE
     for fi, fc in enumerate(cases):
-        for op, a in readcalls.out_of_range_calls(fc.F, rng):
+        for j, (op, a) in enumerate(readcalls.out_of_range_calls(fc.F, rng)):
             calls.append((fi, op, a))
+            if j % 12 == 11:        # a valid call on the reader that has just refused a dozen: a refusal leaves nothing behind
+                ni, nx, nz = fc.F['n']
+                if fc.F['dim'] == 2:
+                    calls.append((fi, 'get_trace', [(j // 12) % nx, NONE, NONE]))
+                else:
+                    calls.append((fi, ('read_inline', 'get_trace', 'read_crossline', 'read_zslice')[(j // 12) % 4],
+                                  [[0], [readcalls.tracecount(fc.F) - 1, NONE, NONE], [nx - 1], [nz - 1]][(j // 12) % 4]))
     answers = session.eval_calls(cases, calls, run)
     readers = {}
     for (fi, op, a), ans in zip(calls, answers):
         fc = cases[fi]
         if classify(ans) == 'inrange':
-            continue        # the generator also emits a few tuples that are in range for small extents
+            if fi in readers:       # (the generator also emits a few tuples that are in range for small extents)
+                case = {'file': fc.label, 'op': op, 'args': a, 'F': {k2: fc.F[k2] for k2 in ('dim', 'n', 'b', 'ub')}}
+                run.case(case)
+                with env.quiet():
+                    out = readcalls.invoke(readers[fi], op, a)
+                ok, detail = readcalls.compare(out, ans['alts'], fc.ref,
+                                               header_of=lambda t, fc=fc, ans=ans: fc.header([x for x in ans['alts'] if x['kind'] == 'header'][0]['grid']))
+                run.check(ok, f'C14.valid-after-refusals[{op}]', case, detail, 'the real data')
+            continue
         if fi not in readers:
             with env.quiet():
                 readers[fi] = SgzReader(fc.path)
